@@ -17,6 +17,20 @@ def main (args : List String) : IO UInt32 := do
     runLoop stdin stdout
     stdout.flush
     return 0
+  | ["script"] =>
+    let stdin ← IO.getStdin
+    let stdout ← IO.getStdout
+    let rec loop : Nat → IO Unit
+      | 0 => pure ()
+      | n+1 => do
+        let line ← stdin.getLine
+        if line.isEmpty then return ()
+        let t := line.trimAscii.toString
+        if !t.isEmpty then stdout.putStrLn (Gen.scriptLine t)
+        loop n
+    loop 100000000
+    stdout.flush
+    return 0
   | "gen" :: kind :: seed :: n :: _ =>
     let stdout ← IO.getStdout
     for l in Gen.generate kind seed.toNat! n.toNat! do
@@ -24,5 +38,5 @@ def main (args : List String) : IO UInt32 := do
     stdout.flush
     return 0
   | _ =>
-    IO.eprintln "usage: lzmodel run | gen <kind> <seed> <n>"
+    IO.eprintln "usage: lzmodel run | gen <kind> <seed> <n> | script"
     return 2
